@@ -368,7 +368,8 @@ Record client_obs := {
 Record conc_obs := {
   co_clients : list client_obs;
   co_stray : bool;        (* something other than the clients' collections was left under the served root *)
-  co_hang : bool }.       (* watchdog fired *)
+  co_hang : bool;         (* watchdog fired *)
+  co_race : bool }.       (* thorough tier only: the race detector reported a data race during the workload *)
 
 Definition canon_outs (l : list (option outc)) : list (option outc) := map (option_map canon_outc) l.
 
@@ -400,11 +401,11 @@ Fixpoint clients_agree (cs : list client) (i : nat) (rest : list client) (obs : 
 
 (** [conc_agrees]: the implementation did what the model says, concurrently and alone *)
 Definition conc_agrees (cs : list client) (o : conc_obs) : bool :=
-  negb (co_hang o) && negb (co_stray o) && clients_agree cs 0 cs (co_clients o).
+  negb (co_hang o) && negb (co_stray o) && negb (co_race o) && clients_agree cs 0 cs (co_clients o).
 
 (** [conc_spec_ok]: the property itself — every goroutine got concurrently exactly
     the answers and the effect it gets alone, and nothing else was touched *)
 Definition conc_spec_ok (o : conc_obs) : bool :=
-  negb (co_hang o) && negb (co_stray o) &&
+  negb (co_hang o) && negb (co_stray o) && negb (co_race o) &&
   forallb (fun c => outs_eqb (co_conc c) (co_alone c) && tree_eqb (co_conc_tree c) (co_alone_tree c))
           (co_clients o).
